@@ -87,6 +87,25 @@ def dotted_segment_names(r, doc, p):
             s["follows_segment"] = ren[s["follows_segment"]]
 
 
+def dotted_class_names(r, doc, p):
+    """with probability p, gives some vram classes names with characters a linker accepts in a symbol and C does not"""
+    if not r.chance(p) or not isinstance(doc.get("vram_classes"), list):
+        return
+    pool = ["ovl.battle", "cls.a", "bank$1", "x.y.z"]
+    ren = {}
+    for c in doc["vram_classes"]:
+        if isinstance(c, dict) and r.chance(0.6) and pool:
+            new = pool.pop(r.below(len(pool)))
+            ren[c.get("name")] = new
+            c["name"] = new
+    for c in doc["vram_classes"]:
+        if isinstance(c, dict) and isinstance(c.get("follows_classes"), list):
+            c["follows_classes"] = [ren.get(x, x) for x in c["follows_classes"]]
+    for s in doc.get("segments", []):
+        if s.get("vram_class") in ren:
+            s["vram_class"] = ren[s["vram_class"]]
+
+
 def default_cases(pid):
     """documents that rely on the documented defaults alone: no `settings` key, an empty one, no optional field anywhere"""
     out = []
@@ -387,7 +406,7 @@ class C12(Property):
             "or the document has an excluded file entry")
 
     def profile(self, r):
-        return Profile(dpath=1.0, p_archive=0.4, p_cond=0.4, p_group=0.35, p_braces=0.4)
+        return Profile(dpath=1.0, p_archive=0.4, p_cond=0.4, p_group=0.35, p_braces=0.4, p_dot_components=0.15)
 
     def tweak(self, r, c):
         dotted_segment_names(r, c["doc"], 0.12)
@@ -395,6 +414,8 @@ class C12(Property):
         fs = [f for f in all_files(c["doc"]) if "path" in f]
         if len(fs) >= 2 and r.chance(0.5):
             fs[-1]["path"] = fs[0]["path"]
+            if r.chance(0.3):
+                fs[-1]["path"] = "./" + fs[0]["path"]      # the same file, spelled with a `.` component
             if fs[0].get("path", "").endswith(".a"):
                 fs[-1]["subfile"] = "other.o"
 
@@ -436,6 +457,7 @@ class C13(Property):
         return Profile(header=1.0, p_offset=0.3, p_classes=0.5, p_toplevel=0.5, p_makerom=0.5, p_settings_field=0.4, p_gp=0.4)
 
     def tweak(self, r, c):
+        dotted_class_names(r, c["doc"], 0.15)
         # the header is also written when there is no dependency file to write
         st = c["doc"].get("settings")
         if isinstance(st, dict) and r.chance(0.3):
@@ -463,6 +485,15 @@ class C13(Property):
                     res.update(status="violation", why="the symbols header %s is not written (files: %s)" % (p, sorted(files)))
                 elif files[p] != impl["header"]:
                     res.update(status="violation", why="the symbols header file %s is not the header of the generated symbols" % p)
+            if res["status"] == "ok" and hp:
+                # regenerated over an older, longer header at the same place: the file is still exactly the header
+                stale = "#ifndef OLD_H\n#define OLD_H\n" + "extern char old_symbol_%d[];\n" * 1 % 0 + "/* stale */\n" * 600 + "#endif\n"
+                c3 = dict(c2, pre=[[p, stale] for p in hp], id=c["id"] + ":regen")
+                fimpl3, fv3 = eval_files(w, c3)
+                if fimpl3.get("outcome") == "ok":
+                    for p in hp:
+                        if fimpl3.get("files", {}).get(p) != impl["header"]:
+                            res.update(status="violation", why="regenerated over an older, longer file the symbols header %s is not the header of the generated symbols" % p)
         return res
 
     def nontrivial(self, c):
@@ -898,12 +929,14 @@ OVER_NAMES = {"alloc_sections", "noload_sections", "subalign", "segment_start_al
 class C17(Property):
     pid = "C17"
     title = "top-level statements and _gp"
+    owns_errors = ("MissingSectionForSegment",)      # a gp_info whose section the segment has must be accepted (and `_gp` defined)
     rule = ("valid-stream documents with entry, symbol assignments (all four flag combinations), required symbols, asserts, "
             "gp_info on any segment/section/offset or a hardcoded value, conditions on all of them, multi-segment, single-segment and "
             "partial modes; non-trivial when the document has at least two statement kinds or a gp_info")
 
     def profile(self, r):
-        return Profile(p_toplevel=0.75, p_gp=0.6, p_cond=0.35, p_single=0.2, p_partial=0.3, p_align=0.5, p_missing_key=0.0)
+        return Profile(p_toplevel=0.75, p_gp=0.6, p_cond=0.35, p_single=0.2, p_partial=0.3, p_align=0.5, p_missing_key=0.0,
+                       p_segment_override=0.35, p_custom_lists=0.5)
 
     def tweak(self, r, c):
         # section alignments on the gp section, to pin the position of `_gp`
@@ -1323,6 +1356,30 @@ class C20(Property):
             c["out"] = r.pick(["out/{version}/script.ld", "script.ld", "a/b/c/s.ld", "{region}.ld", "o.ld"])
         c["prior"] = r.pick(["absent", "absent", "longer", "longer", "dirs"])
 
+    def extra_cases(self, tier):
+        """an output location that accepts the open and refuses the data (/dev/full): the error must reach the exit status"""
+        import os
+        out = []
+        if not os.path.exists("/dev/full"):
+            return out
+        k = 0
+        for where in ("out", "d_path", "symbols_header_path"):
+            for mode in ("normal", "partial"):
+                st = {"base_path": "build", "target_path": "rom.elf", "partial_scripts_folder": "ps", "partial_build_segments_folder": "pb"}
+                c = {"id": "devfull%d" % k, "seed": 3 + k, "stream": "valid", "opts": [], "cli_opts": [], "cli_long": [], "mode": mode,
+                     "version_comment": False, "prior": "absent", "devfull": where,
+                     "doc": {"settings": st, "segments": [{"name": "boot", "files": [{"path": "a.o"}, {"path": "b.o"}]}]}}
+                if where == "out":
+                    c["out"] = "/dev/full"
+                    if mode == "partial":
+                        continue        # in partial mode -o names a directory
+                else:
+                    st[where] = "/dev/full"
+                    c["out"] = "s.ld" if mode == "normal" else "outdir"
+                out.append(c)
+                k += 1
+        return out
+
     def nontrivial(self, c):
         st = c["doc"].get("settings") or {}
         nfiles = sum(1 for k in ("d_path", "symbols_header_path") if k in st) + (1 if "out" in c else 0) + (2 if c["mode"] == "partial" else 0)
@@ -1333,10 +1390,29 @@ class C20(Property):
         import os, shutil, subprocess
         from . import run
         res = {"impl_outcome": None, "impl_err": None, "model_outcome": None, "model_err": None}
+        cli = os.path.join(run.BUILD, "repo-target", "debug", "slinky-cli")
+        if c.get("devfull"):
+            d = os.path.join(run.BUILD, "cli", "p%d_%s" % (os.getpid(), c["id"]))
+            shutil.rmtree(d, ignore_errors=True)
+            os.makedirs(d)
+            try:
+                with open(os.path.join(d, "input.yaml"), "w") as f:
+                    f.write(tree.to_yaml(c["doc"]))
+                argv = [cli, "input.yaml", "-o", c["out"], "--omit-version-comment"] + (["--partial-linking"] if c["mode"] == "partial" else [])
+                p = subprocess.run(argv, cwd=d, capture_output=True, text=True, timeout=30)
+                res["impl_outcome"] = "ok" if p.returncode == 0 else "exit%d" % p.returncode
+                if p.returncode == 0:
+                    res.update(status="violation", why="writing %s to /dev/full fails (no space left on device) but the exit status is 0" % c["devfull"])
+                elif p.returncode < 0 or p.returncode in (134, 139):
+                    res.update(status="violation", why="the CLI died with signal/abort rc=%d" % p.returncode)
+                else:
+                    res.update(status="ok", why="")
+                return res
+            finally:
+                shutil.rmtree(d, ignore_errors=True)
         if not fs_safe(c) or any(v.startswith("/") or ".." in v for _, v in c["opts"]):
             res.update(status="skip", why="paths could leave the scratch directory")
             return res
-        cli = os.path.join(run.BUILD, "repo-target", "debug", "slinky-cli")
         d = os.path.join(run.BUILD, "cli", "p%d_%s" % (os.getpid(), c["id"]))
         shutil.rmtree(d, ignore_errors=True)
         os.makedirs(d)
@@ -1507,6 +1583,41 @@ class C04(ImageProperty):
         from . import image
         return image.check_rom(L, info), []
 
+    def tweak(self, r, c):
+        # conditions with several pairs on segments (an excluded subset decided by a partially matching list)
+        for sgm in c["doc"].get("segments", []):
+            if r.chance(0.2):
+                sgm[r.pick(list(COND_KEYS))] = gen.gen_pairs(r, 2 + r.below(2))
+
+    def evaluate(self, w, c):
+        res = ImageProperty.evaluate(self, w, c)
+        if res.get("status") not in ("ok", "corr") or res.get("impl_outcome") != "ok":
+            return res
+        # text level, every mode: the ROM statements cover exactly the emitted segments, in document order; and the main
+        # script of partial mode moves the ROM counter exactly as the ordinary script does
+        impl = w.h.run(engine_request(c))
+        info = w.d.ask({"op": "docinfo", "case": {"id": c["id"], "doc": tree.to_proto(c["doc"]), "opts": c["opts"]}})
+        if impl.get("outcome") != "ok" or not info or "segments" not in info or info["single"]:
+            return res
+
+        def rom_lines(text):
+            return [t.strip() for t in (text or "").split("\n") if "__romPos" in t]
+        want = []
+        for sg in info["segments"]:
+            if sg["emitted"]:
+                want += [sg["rom_start"], sg["rom_end"], sg["rom_size"]]
+        got = [m.group(1) for t in rom_lines(impl.get("script")) for m in [re.match(r"^(\S+) = ", t)] if m and m.group(1) in set(want)]
+        have = [n for n in re.findall(r"^\s*(\S+) = ", impl.get("script") or "", re.M) if n in set(want)]
+        if have != want:
+            res.update(status="violation", why="ROM symbols of the emitted segments, in document order: expected %s..., the script assigns %s..." % (want[:6], have[:6]))
+            return res
+        if c["mode"] == "partial":
+            from .engine import impl_request
+            implN = w.h.run(impl_request(dict(c, mode="normal", id=c["id"] + ":normal")))
+            if implN.get("outcome") == "ok" and rom_lines(implN.get("script")) != rom_lines(impl.get("script")):
+                res.update(status="violation", why="the main script of partial mode moves the ROM counter differently from the ordinary script")
+        return res
+
 
 class C05(ImageProperty):
     pid = "C05"
@@ -1523,6 +1634,10 @@ class C05(ImageProperty):
         st = d.get("settings") or {}
         return st.get("linker_symbols_style") == "makerom" or "alloc_sections" in st or bool(d.get("vram_classes")) or \
             any(f.get("kind") == "linker_offset" for f in all_files(d))
+
+    def tweak(self, r, c):
+        dotted_class_names(r, c["doc"], 0.15)
+        dotted_segment_names(r, c["doc"], 0.1)
 
     def image_checks(self, L, info, c):
         from . import image
@@ -1599,6 +1714,39 @@ class C09(ImageProperty):
         from . import image
         return image.check_align(L, info, L.main_stmts), []
 
+    def evaluate(self, w, c):
+        res = ImageProperty.evaluate(self, w, c)
+        if res.get("status") not in ("ok", "corr") or res.get("impl_outcome") != "ok":
+            return res
+        # text level, ordinary script and main script of partial mode: the alignment statements are exactly the requested
+        # ones, in place and in order (an option that is null or absent adds none; a requested one is not lost)
+        impl = w.h.run(engine_request(c))
+        info = w.d.ask({"op": "docinfo", "case": {"id": c["id"], "doc": tree.to_proto(c["doc"]), "opts": c["opts"]}})
+        if impl.get("outcome") != "ok" or not info or "segments" not in info or info["single"]:
+            return res
+        want, subs = [], []
+        for sg in info["segments"]:
+            if not sg["emitted"]:
+                continue
+            if sg.get("start_align") is not None:
+                want += [("__romPos", sg["start_align"]), (".", sg["start_align"])]
+            for sc in sg["sections"]:
+                want += [(".", a) for a in sc["start_aligns"]] + [(".", a) for a in sc["end_aligns"]]
+            if sg.get("end_align") is not None:
+                want += [("__romPos", sg["end_align"]), (".", sg["end_align"])]
+            if sg.get("subalign") is not None:
+                subs += [sg["subalign"], sg["subalign"]]
+        text = impl.get("script") or ""
+        got = [(a, int(v, 16)) for a, b, v in re.findall(r"^\s*(\S+) = ALIGN\((\S+), 0x([0-9A-Fa-f]+)\);", text, re.M) if a == b]
+        gsubs = [int(x) for x in re.findall(r"SUBALIGN\((\d+)\)", text)]
+        if got != want:
+            k = next((i for i, (x, y) in enumerate(zip(got, want)) if x != y), min(len(got), len(want)))
+            res.update(status="violation", why="alignment statements of the %s script differ from the requested ones at position %d: script %s, requested %s" % (
+                "main" if c["mode"] == "partial" else "ordinary", k, got[k:k + 3], want[k:k + 3]))
+        elif gsubs != subs:
+            res.update(status="violation", why="SUBALIGN attributes %s, requested %s" % (gsubs[:6], subs[:6]))
+        return res
+
 
 class C10(ImageProperty):
     pid = "C10"
@@ -1613,6 +1761,7 @@ class C10(ImageProperty):
 
     def tweak(self, r, c):
         d = c["doc"]
+        dotted_class_names(r, d, 0.2)
         names = [x["name"] for x in d.get("vram_classes") or []]
         for s in d.get("segments", []):
             if names and r.chance(0.5):
@@ -1623,6 +1772,17 @@ class C10(ImageProperty):
                 for k in ("fixed_vram", "fixed_symbol", "follows_segment"):
                     s.pop(k, None)
                 s["vram_class"] = "undeclared_class"
+        if names and r.chance(0.06):
+            # a member that also asks for an address of its own (the validity rules forbid the combination)
+            ms = [s for s in d.get("segments", []) if s.get("vram_class") in names]
+            if ms:
+                s = r.pick(ms)
+                if r.chance(0.5):
+                    s["fixed_vram"] = 0x80400000
+                else:
+                    s["fixed_symbol"] = "some_symbol"
+                c["extra_addr"] = True
+                c["link"] = False
         if c["mode"] == "partial":
             st = d.setdefault("settings", {})
             st.setdefault("partial_scripts_folder", "ps")
@@ -1641,6 +1801,51 @@ class C10(ImageProperty):
     def image_checks(self, L, info, c):
         from . import image
         return image.check_classes(L, info)
+
+    def evaluate(self, w, c):
+        res = ImageProperty.evaluate(self, w, c)
+        if res.get("status") not in ("ok", "corr", "skip") or res.get("impl_outcome") != "ok":
+            return res
+        if res.get("status") == "skip" or c.get("extra_addr"):
+            # the implementation accepted a document (whatever the validity rules say about it): every emitted member
+            # of a class must still be placed at the class start
+            d2 = copy.deepcopy(c["doc"])
+            for sg in d2.get("segments", []):
+                if isinstance(sg, dict) and "vram_class" in sg:
+                    for k in ("fixed_vram", "fixed_symbol", "follows_segment"):
+                        sg.pop(k, None)
+            info2 = w.d.ask({"op": "docinfo", "case": {"id": c["id"], "doc": tree.to_proto(d2), "opts": c["opts"]}})
+            impl = w.h.run(engine_request(c))
+            if info2 and "classes" in info2 and impl.get("outcome") == "ok" and not info2["single"]:
+                start = {cl["name"]: cl["start"] for cl in info2["classes"]}
+                for sg in info2["segments"]:
+                    if sg["emitted"] and sg.get("vram_class") in start:
+                        m = re.search(r"^\s*" + re.escape("." + sg["name"]) + r" (\S+) :", impl.get("script") or "", re.M)
+                        if m and m.group(1) != start[sg["vram_class"]]:
+                            res.update(status="violation", why="member segment %s of class %s is placed at %s, not at the class start %s" % (
+                                sg["name"], sg["vram_class"], m.group(1), start[sg["vram_class"]]))
+                            return res
+            if res.get("status") == "skip":
+                return res
+        # text level, every mode: a class symbol that a script refers to (address of a member, MAX for a follower or
+        # for the class end, the size expression) is also assigned by a script - otherwise the image cannot be linked
+        impl = w.h.run(engine_request(c))
+        if impl.get("outcome") != "ok":
+            return res
+        info = w.d.ask({"op": "docinfo", "case": {"id": c["id"], "doc": tree.to_proto(c["doc"]), "opts": c["opts"]}})
+        if not info or "classes" not in info:
+            return res
+        text = impl.get("script") or ""
+        assigned = set(re.findall(r"^\s*(?:PROVIDE\(|HIDDEN\(|PROVIDE_HIDDEN\()?([^\s=()]+) = ", text, re.M))
+        dangling = []
+        for cl in info["classes"]:
+            for n in (cl["start"], cl["end"]):
+                used = re.search(r"(?<![\w.$])" + re.escape(n) + r"(?![\w.$])", re.sub(r"^\s*" + re.escape(n) + r" = .*$", "", text, flags=re.M))
+                if used and n not in assigned:
+                    dangling.append(n)
+        if dangling:
+            res.update(status="violation", why="the script refers to class symbols that no statement defines: %s" % ", ".join(dangling[:4]))
+        return res
 
 
 class C01(ImageProperty):
@@ -1932,10 +2137,12 @@ class C08(Property):
                 "sections_start_alignment": ({".data": 0x20}, {".text": 0x40, ".data": 8}),
                 "sections_end_alignment": ({".text": 0x20}, {".data": 0x10}), "wildcard_sections": (False, True),
                 "fill_value": (0xFF, 0x12345678), "sections_subgroups": ({".data": [".rdata"]}, {".text": [".init", ".fini"]})}
+        empties = {"alloc_sections": [], "noload_sections": [], "sections_start_alignment": {}, "sections_end_alignment": {}, "sections_subgroups": {}}
         i = 0
         for k in OVER:
-            for g in ("absent", "null", "v1", "v2"):
-                for sg in ("absent", "null", "v1", "v2"):
+            levels = ("absent", "null", "v1", "v2") + (("empty",) if k in empties else ())
+            for g in levels:
+                for sg in levels:
                     i += 1
                     st = {"base_path": "build"}
                     seg = {"name": "main", "fixed_vram": 0x80000400, "files": [{"path": "a.o"}, {"path": "b.o"}]}
@@ -1946,6 +2153,8 @@ class C08(Property):
                             tgt[k] = copy.deepcopy(vals[k][0])
                         elif lvl == "v2":
                             tgt[k] = copy.deepcopy(vals[k][1])
+                        elif lvl == "empty":
+                            tgt[k] = copy.deepcopy(empties[k])
                     doc = {"settings": st, "segments": [seg, {"name": "other", "files": [{"path": "c.o"}]}]}
                     cases.append({"id": "ov%d" % i, "seed": i, "stream": "lattice:override", "doc": doc, "opts": [],
                                   "mode": "normal", "version_comment": False})
